@@ -491,7 +491,9 @@
 
     <xsl:if test="a:heading">
       <xsl:text> - </xsl:text>
-      <xsl:apply-templates select="a:heading" />
+      <xsl:apply-templates select="a:heading">
+        <xsl:with-param name="indent" select="$indent" />
+      </xsl:apply-templates>
     </xsl:if>
     <xsl:if test="a:subheading">
       <xsl:text>&#10;</xsl:text>
@@ -760,7 +762,9 @@
 
     <xsl:if test="a:heading">
       <xsl:text> </xsl:text>
-      <xsl:apply-templates select="a:heading" />
+      <xsl:apply-templates select="a:heading">
+        <xsl:with-param name="indent" select="$indent" />
+      </xsl:apply-templates>
     </xsl:if>
 
     <xsl:if test="a:subheading">
@@ -817,6 +821,15 @@
      and the note. -->
     <xsl:variable name="cnt" select="count(ancestor-or-self::a:p)" />
     <xsl:apply-templates select=".//a:authorialNote[count(ancestor::a:p) = $cnt]" mode="content">
+      <xsl:with-param name="indent" select="$indent" />
+    </xsl:apply-templates>
+  </xsl:template>
+
+  <!-- a heading is written on its element's line; a line break inside it (a multi-line remark) continues at
+       that element's indentation -->
+  <xsl:template match="a:heading">
+    <xsl:param name="indent">0</xsl:param>
+    <xsl:apply-templates>
       <xsl:with-param name="indent" select="$indent" />
     </xsl:apply-templates>
   </xsl:template>
